@@ -440,6 +440,13 @@ fn sweep(maxn: u64, lite: bool) -> Vec<Value> {
                 ops.push(json!({"op": "assoc", "i": cur + 1, "t": "A"}));
                 ops.push(json!({"op": "dissoc", "i": 0, "t": "C"}));
                 ops.push(build_op(&q));
+                // the first of three tags goes; the other two are then addressed by name
+                ops.push(json!({"op": "remove_tag", "t": "A"}));
+                ops.push(json!({"op": "assoc", "i": 0, "t": "C"}));
+                ops.push(json!({"op": "dissoc", "i": cur + 1, "t": "B"}));
+                ops.push(build_op(&q));
+                ops.push(json!({"op": "remove_tag", "t": "B"}));
+                ops.push(build_op(&q));
             }
             progs.push(with_ops(&k, ops));
             // (b) files first, tags second
